@@ -86,12 +86,22 @@ func RandomFile(seed uint64, o FileOpts) []string {
 		case 10:
 			out = append(out, fmt.Sprintf("C%s,target%d.%s,%s,,%s", n, r.N(4), zones[r.N(len(zones))], ttl(), loc()))
 		case 11, 12:
+			if r.N(4) == 0 {
+				// trailing fields omitted, so the text is the last field of the line, and it ends in a blank
+				// or a tab (white space at the end of a line belongs to the last field)
+				out = append(out, fmt.Sprintf("'%s,text %d of tag %d ends in white space%s", n, r.N(1000), o.Tag, r.Pick(" ", "\t", "  ")))
+				break
+			}
 			out = append(out, fmt.Sprintf("'%s,text %d of tag %d,%s,,%s", n, r.N(1000), o.Tag, ttl(), loc()))
 		case 13:
 			out = append(out, fmt.Sprintf("S%s,%s,srv%d.%s,%d,%d,%d,%s,,%s", n, r.Pick("", ip4()), r.N(3), zones[r.N(len(zones))], r.N(20), r.N(100), 1+r.N(65000), ttl(), loc()))
 		case 14:
 			out = append(out, fmt.Sprintf("^%d.%d.0.192.in-addr.arpa,host%d.%s,%s,,%s", r.N(256), o.Tag%256, r.N(10), zones[r.N(len(zones))], ttl(), loc()))
 		case 15:
+			if r.N(4) == 0 {
+				out = append(out, fmt.Sprintf(":%s,%d,\\001\\002raw%d%s", n, 99+r.N(3), r.N(100), r.Pick(" ", "\t")))
+				break
+			}
 			out = append(out, fmt.Sprintf(":%s,%d,\\001\\002raw%d,%s,,%s", n, 99+r.N(3), r.N(100), ttl(), loc()))
 		case 16:
 			out = append(out, fmt.Sprintf("H%s,%s,%s,%s,%d,alpn=h3|h2", n, r.Pick(".", "svc."+zones[0]), r.Pick("300", "7200"), r.Pick("", `\000\001`), 1+r.N(3)))
